@@ -301,7 +301,16 @@ impl DltStandardHeader {
             htyp |= DLT_STD_HDR_HAS_EXT_HDR;
             len += DLT_EXT_HEADER_SIZE as u16;
         }
-        len += payload.len() as u16; // todo check for max len...
+        // the len field has 16 bits only (e.g. a plugin added an ext header to a max. sized msg):
+        let len = match u16::try_from(len as usize + payload.len()) {
+            Ok(len) => len,
+            Err(_) => {
+                return Err(std::io::Error::new(
+                    std::io::ErrorKind::InvalidInput,
+                    "dlt message too long (header and payload exceed the 16 bit len field)",
+                ))
+            }
+        };
 
         let b2 = &u16::to_be_bytes(len);
         let b1 = &[htyp, std_hdr.mcnt, b2[0], b2[1]];
